@@ -205,7 +205,7 @@ Proof.
       destruct man; cbn [safe save_prog]; auto. split; [right; now left|exact I].
     + cbn. exact I.
   - destruct (exists_file fs (FBlob d)) eqn:E; [|exact I]. cbn [tag_prog safe save_prog].
-    split; [left; now apply exists_file_true|exact I].
+    split; [left; now apply exists_file_true|]. split; [left; now apply exists_file_true|exact I].
   - destruct (tag_get r tags); cbn; exact I.
   - cbn. exact I.
 Qed.
@@ -325,7 +325,7 @@ Proof.
     + destruct (H c =? d0); [|destruct Hin as [E|[]]; discriminate].
       destruct Hin as [E|Hin]; [discriminate|]. destruct man; [|destruct Hin].
       cbn in Hin. destruct Hin as [E|[E|[E|[E|[]]]]]; discriminate.
-  - destruct (exists_file fs (FBlob d0)); [|intros []]. cbn. intros [E|[E|[E|[E|[]]]]]; try discriminate.
+  - destruct (exists_file fs (FBlob d0)); [|intros []]. cbn. intros [E|[E|[E|[E|[E|[]]]]]]; try discriminate.
     injection E as -> ->. reflexivity.
   - destruct (tag_get r0 tags); [|intros []]. cbn. intros [E|[E|[E|[E|[]]]]]; discriminate.
   - cbn. intros [E|[E|[E|[]]]]; discriminate.
@@ -391,15 +391,24 @@ Proof.
   unfold op_steps. cbn [op_mem]. now apply idx_view.
 Qed.
 
-Lemma refines_tag s d r : Inv H s -> refines s (CTag d r) 4.
+Lemma dig_add_idem d l : dig_add d (dig_add d l) = dig_add d l.
+Proof.
+  unfold dig_add at 2 3. destruct (memN d l) eqn:E; unfold dig_add; [now rewrite E|].
+  unfold memN. cbn [existsb]. now rewrite N.eqb_refl.
+Qed.
+
+Lemma refines_tag s d r : Inv H s -> refines s (CTag d r) 5.
 Proof.
   intro I. unfold refines, alone. cbn zeta. cbn [op_of_call].
   unfold run_op, start. cbn [map call_prog op_mem].
   destruct (exists_file (sfs s) (FBlob d)) eqn:Ex.
-  - repeat split; try reflexivity. cbn [sfs]. intros p Hp.
+  - repeat split; try reflexivity.
+    { change (dig_add d (dig_add d (sdigs s)) = dig_add d (sdigs s)). apply dig_add_idem. }
+    cbn [sfs]. intros p Hp.
     change (files (set_file (sfs s) FIndex
-                     (mkFile [AIndex (shuffle (sctr s) (save (tag_set r d (stags s)) (dig_add d (sdigs s))))] false)) p =
+                     (mkFile [AIndex (shuffle (sctr s) (save (tag_set r d (stags s)) (dig_add d (dig_add d (sdigs s)))))] false)) p =
             files (apply (op_steps H shuffle false false true s (Tag d r)) (sfs s)) p).
+    rewrite dig_add_idem.
     unfold op_steps. cbn [op_mem]. rewrite Ex. cbv beta iota delta [auto_idx]. now apply idx_view.
   - repeat split; try reflexivity. cbn [sfs]. intros p Hp. unfold op_steps. cbn [op_mem]. rewrite Ex. reflexivity.
 Qed.
@@ -504,7 +513,7 @@ Theorem conc_alone_refines s x : Inv H s -> exists n, refines s x n.
 Proof.
   intro I. destruct x as [d c man|d r|r|].
   - exists (length c + 5)%nat. now apply refines_push.
-  - exists 4%nat. now apply refines_tag.
+  - exists 5%nat. now apply refines_tag.
   - exists 4%nat. now apply refines_untag.
   - exists 3%nat. now apply refines_saveindex.
 Qed.
@@ -542,7 +551,7 @@ Lemma conc_example :
   let H := fun c : list N => match c with [7] => 1 | [8] => 2 | [9] => 3 | _ => 0 end in
   let id := fun (_ : nat) (l : list entry) => l in
   let s := runc H id src_inplace src_unlink_first true [Done (Push 3 [9] true)] init in
-  let c := sched id (start H s [CPush 1 [7] true; CPush 2 [8] true; CTag 3 5]) [0; 2; 0; 2; 0; 2; 0; 1; 2]%nat in
+  let c := sched id (start H s [CPush 1 [7] true; CPush 2 [8] true; CTag 3 5]) [0; 2; 0; 2; 2; 0; 2; 0; 1; 2]%nat in
   read_index (cfs c) = Some [(3, Some 5)] /\
   exists_file (cfs c) (FBlob 1) = true /\ exists_file (cfs c) (FBlob 2) = false /\
   cdigs c = [1; 3] /\ clock c = false.
